@@ -157,42 +157,51 @@ Ltac bool_cases :=
   | |- context [?a =? ?b] => destruct (Nat.eqb_spec a b)
   end; cbn [andb orb negb].
 
+(* the character left by the guarded copy, on optional characters (both are present wherever the
+   copy succeeds) *)
+Definition pick_opt (lower upper : char -> list char) (x y : option char) : option char :=
+  match x, y with Some c, Some b => Some (canon_pick lower upper c b) | _, _ => None end.
+
 Section Loops.
   Variable lower : char -> list char.
+  Variable upper : char -> list char.
   Variable is_lowercase : char -> bool.
   Variable dict_canon : text -> option text.
   Variable dict_meta : text -> option wmeta.
 
   (* ---------- canon_overwrite ---------- *)
   Lemma canon_overwrite_ok cc : forall n out a idx out',
-    canon_overwrite out a n idx cc = Ok out' ->
+    canon_overwrite lower upper out a n idx cc = Ok out' ->
     length out' = length out /\
     (0 < n -> idx + n <= length cc /\ a + idx + n <= length out) /\
     forall k, nth_error out' k =
-              if (a + idx <=? k) && (k <? a + idx + n) then nth_error cc (k - a) else nth_error out k.
+              if (a + idx <=? k) && (k <? a + idx + n)
+              then pick_opt lower upper (nth_error out k) (nth_error cc (k - a)) else nth_error out k.
   Proof.
     induction n as [|n IH]; intros out a idx out' H; cbn [canon_overwrite] in H.
     - inversion H; subst. repeat split; [lia|lia|]. intros k. bool_cases; try reflexivity; lia.
-    - destruct (nth_chk cc idx) as [c|] eqn:Ec; cbn [bind] in H; [|discriminate].
-      destruct (set_nth out (a + idx) c) as [o1|] eqn:Es; cbn [bind] in H; [|discriminate].
-      apply nth_chk_ok in Ec. destruct (set_nth_ok _ _ _ _ Es) as (Hb & Hl & Hk).
+    - destruct (nth_chk cc idx) as [b|] eqn:Ec; cbn [bind] in H; [|discriminate].
+      destruct (nth_chk out (a + idx)) as [c|] eqn:Eo; cbn [bind] in H; [|discriminate].
+      destruct (set_nth out (a + idx) (canon_pick lower upper c b)) as [o1|] eqn:Es; cbn [bind] in H; [|discriminate].
+      apply nth_chk_ok in Ec. apply nth_chk_ok in Eo. destruct (set_nth_ok _ _ _ _ Es) as (Hb & Hl & Hk).
       destruct (IH _ _ _ _ H) as (Hl' & Hb' & Hk').
       assert (idx < length cc) by (apply nth_error_Some; congruence).
       repeat split.
       + lia.
       + destruct n; [lia|]. lia.
       + destruct n; lia.
-      + intros k. rewrite Hk', Hk. bool_cases; try reflexivity; try lia.
-        subst k. replace (a + idx - a) with idx by lia. symmetry. exact Ec.
+      + intros k. rewrite Hk', !Hk. bool_cases; try reflexivity; try lia.
+        subst k. replace (a + idx - a) with idx by lia. rewrite Eo, Ec. reflexivity.
   Qed.
 
   Lemma canon_overwrite_total cc : forall n out a idx,
     idx + n <= length cc -> a + idx + n <= length out ->
-    exists out', canon_overwrite out a n idx cc = Ok out'.
+    exists out', canon_overwrite lower upper out a n idx cc = Ok out'.
   Proof.
     induction n as [|n IH]; intros out a idx Hc Ho; cbn [canon_overwrite]; [eauto|].
-    destruct (nth_chk_total cc idx) as [c Ec]; [lia|]. rewrite Ec. cbn [bind].
-    destruct (set_nth_total out (a + idx) c) as [o1 Es]; [lia|]. rewrite Es. cbn [bind].
+    destruct (nth_chk_total cc idx) as [b Ec]; [lia|]. rewrite Ec. cbn [bind].
+    destruct (nth_chk_total out (a + idx)) as [c Eo]; [lia|]. rewrite Eo. cbn [bind].
+    destruct (set_nth_total out (a + idx) (canon_pick lower upper c b)) as [o1 Es]; [lia|]. rewrite Es. cbn [bind].
     apply IH; [lia|]. destruct (set_nth_ok _ _ _ _ Es) as (_ & Hl & _). lia.
   Qed.
 
@@ -391,32 +400,33 @@ Qed.
 (* ================= one word-like token ================= *)
 Definition in_reg (a n k : nat) : bool := (a <=? k) && (k <? a + n).
 
-(* the character at position k after the proper-noun block *)
-Definition base_val (oc : option text) (a n : nat) (out : text) (k : nat) : option char :=
-  match oc with
-  | Some cc => if in_reg a n k then nth_error cc (k - a) else nth_error out k
-  | None => nth_error out k
-  end.
-
-(* the character at position k after the whole loop body for a token at [a, a+n) *)
-Definition step_val (oc : option text) (cap : bool) (a n : nat) (out : text) (k : nat) : option char :=
-  if cap then (if k =? a then option_map ascii_upper (base_val oc a n out k) else base_val oc a n out k)
-  else (if in_reg a n k then option_map ascii_lower (base_val oc a n out k) else base_val oc a n out k).
-
 Section Main.
   Variable lower : char -> list char.
+  Variable upper : char -> list char.
   Variable is_lowercase : char -> bool.
   Variable dict_canon : text -> option text.
   Variable dict_meta : text -> option wmeta.
 
+  (* the character at position k after the proper-noun block *)
+  Definition base_val (oc : option text) (a n : nat) (out : text) (k : nat) : option char :=
+    match oc with
+    | Some cc => if in_reg a n k then pick_opt lower upper (nth_error out k) (nth_error cc (k - a)) else nth_error out k
+    | None => nth_error out k
+    end.
+
+  (* the character at position k after the whole loop body for a token at [a, a+n) *)
+  Definition step_val (oc : option text) (cap : bool) (a n : nat) (out : text) (k : nat) : option char :=
+    if cap then (if k =? a then option_map ascii_upper (base_val oc a n out k) else base_val oc a n out k)
+    else (if in_reg a n k then option_map ascii_lower (base_val oc a n out k) else base_val oc a n out k).
+
   Notation canon_for' := (canon_for dict_canon).
   Notation sct := (should_capitalize_token lower is_lowercase dict_meta).
-  Notation word_step' := (word_step lower is_lowercase dict_canon dict_meta).
-  Notation tc_loop' := (tc_loop lower is_lowercase dict_canon dict_meta).
-  Notation mtc := (make_title_case lower is_lowercase dict_canon dict_meta).
+  Notation word_step' := (word_step lower upper is_lowercase dict_canon dict_meta).
+  Notation tc_loop' := (tc_loop lower upper is_lowercase dict_canon dict_meta).
+  Notation mtc := (make_title_case lower upper is_lowercase dict_canon dict_meta).
 
   Lemma apply_canon_ok si w oc out out1 :
-    apply_canon si w oc out = Ok out1 ->
+    apply_canon lower upper si w oc out = Ok out1 ->
     length out1 = length out /\
     (forall cc, oc = Some cc ->
        si <= tstart w /\ tstart w <= tend w /\ tend w - si <= length out /\
@@ -477,7 +487,7 @@ Section Main.
   Proof.
     unfold word_step. intros H.
     destruct (canon_for' w src) as [oc|] eqn:Eoc; cbn [bind] in H; [|discriminate].
-    destruct (apply_canon si w oc out) as [out1|] eqn:E1; cbn [bind] in H; [|discriminate].
+    destruct (apply_canon lower upper si w oc out) as [out1|] eqn:E1; cbn [bind] in H; [|discriminate].
     destruct (sct w src) as [sc|] eqn:Esc; cbn [bind] in H; [|discriminate].
     exists oc, sc. split; [reflexivity|]. split; [reflexivity|].
     apply apply_canon_ok in E1. destruct E1 as (Hl1 & Hb1 & Hk1).
@@ -486,21 +496,8 @@ Section Main.
     split; [exact Hl2|]. split; [exact Hb1|]. split; [exact Hc1|]. split; [exact Hc2|].
     intros k. rewrite Hk2. unfold step_val. rewrite !Hk1. reflexivity.
   Qed.
-End Main.
 
-(* ================= the whole function ================= *)
-Section Thms.
-  Variable lower : char -> list char.
-  Variable is_lowercase : char -> bool.
-  Variable dict_canon : text -> option text.
-  Variable dict_meta : text -> option wmeta.
-
-  Notation canon_for' := (canon_for dict_canon).
-  Notation sct := (should_capitalize_token lower is_lowercase dict_meta).
-  Notation word_step' := (word_step lower is_lowercase dict_canon dict_meta).
-  Notation tc_loop' := (tc_loop lower is_lowercase dict_canon dict_meta).
-  Notation mtc := (make_title_case lower is_lowercase dict_canon dict_meta).
-
+  (* ================= the whole function ================= *)
   (* ---------- length ---------- *)
   Lemma tc_loop_len : forall wl si src idx out out',
     tc_loop' si src wl idx out = Ok out' -> length out' = length out.
@@ -537,73 +534,202 @@ Section Thms.
       apply tc_loop_len in Hl. apply get_content_len in Hc. cbn [sstart send] in Hc. lia.
   Qed.
 
-  (* ---------- every output character is the input character up to ASCII case, or the
-     corresponding character of the canonical spelling of a proper-noun token up to ASCII case *)
+
+  (* ---------- text_eqb, the table's apostrophes ---------- *)
+  Lemma text_eqb_eq : forall a b, text_eqb a b = true -> a = b.
+  Proof.
+    induction a as [|x a IH]; intros [|y b] H; cbn [text_eqb] in H; try discriminate; [reflexivity|].
+    apply Bool.andb_true_iff in H. destruct H as [H1 H2]. apply N.eqb_eq in H1. subst y. f_equal. apply IH. exact H2.
+  Qed.
+  Lemma text_eqb_refl : forall a, text_eqb a a = true.
+  Proof. induction a as [|x a IH]; [reflexivity|]. cbn [text_eqb]. rewrite N.eqb_refl, IH. reflexivity. Qed.
+
+  (* the canonical apostrophe and the curly ones are not ASCII letters (computed from the generated table) *)
+  Lemma apo_to_upper : ascii_upper tc_canonical_apostrophe_to = tc_canonical_apostrophe_to.
+  Proof. reflexivity. Qed.
+  Lemma apo_to_lower : ascii_lower tc_canonical_apostrophe_to = tc_canonical_apostrophe_to.
+  Proof. reflexivity. Qed.
+  Lemma apo_from_high : Forall (fun x => (122 < x)%N) tc_canonical_apostrophe_from.
+  Proof. repeat constructor. Qed.
+
+  Lemma existsb_eqb_high (l : list N) c :
+    Forall (fun x => (122 < x)%N) l -> (c <= 122)%N -> existsb (N.eqb c) l = false.
+  Proof.
+    intros Hl Hc. induction Hl as [|x l Hx _ IH]; [reflexivity|]. cbn [existsb]. rewrite IH, Bool.orb_false_r.
+    apply N.eqb_neq. lia.
+  Qed.
+
+  Lemma apo_from_upper x :
+    existsb (N.eqb (ascii_upper x)) tc_canonical_apostrophe_from = existsb (N.eqb x) tc_canonical_apostrophe_from.
+  Proof.
+    destruct (ascii_upper_cases x) as [[H _]|[H Hr]]; rewrite H; [reflexivity|].
+    rewrite !(existsb_eqb_high _ _ apo_from_high); [reflexivity|lia|lia].
+  Qed.
+  Lemma apo_from_lower x :
+    existsb (N.eqb (ascii_lower x)) tc_canonical_apostrophe_from = existsb (N.eqb x) tc_canonical_apostrophe_from.
+  Proof.
+    destruct (ascii_lower_cases x) as [[H _]|[H Hr]]; rewrite H; [reflexivity|].
+    rewrite !(existsb_eqb_high _ _ apo_from_high); [reflexivity|lia|lia].
+  Qed.
+  Lemma apo_from_not_alpha x : In x tc_canonical_apostrophe_from -> is_ascii_alpha x = false.
+  Proof.
+    intros Hx. pose proof apo_from_high as Hh. rewrite Forall_forall in Hh. specialize (Hh x Hx).
+    unfold is_ascii_alpha, is_ascii_lower, is_ascii_upper.
+    destruct (N.leb_spec x 122); [lia|]. destruct (N.leb_spec x 90); [lia|]. rewrite !Bool.andb_false_r. reflexivity.
+  Qed.
+
+  (* ---------- the relation between an input and an output character that the property allows ----------
+     case_variant a c: the same letter in possibly different case — what is_case_variant computes
+     (equal to_lowercase AND equal to_uppercase mappings; KELVIN SIGN / K is NOT a pair: they share the
+     lower-case k but not the upper-case mapping). *)
+  Definition case_variant (a c : char) : Prop := lower a = lower c /\ upper a = upper c.
+
+  Lemma is_case_variant_spec a c : is_case_variant lower upper a c = true <-> case_variant a c.
+  Proof.
+    unfold is_case_variant, case_variant. rewrite Bool.andb_true_iff. split.
+    - intros [H1 H2]. split; apply text_eqb_eq; assumption.
+    - intros [H1 H2]. rewrite H1, H2, !text_eqb_refl. split; reflexivity.
+  Qed.
+  Lemma is_apostrophe_pair_spec c b :
+    is_apostrophe_pair c b = true <-> b = tc_canonical_apostrophe_to /\ In c tc_canonical_apostrophe_from.
+  Proof.
+    unfold is_apostrophe_pair. rewrite Bool.andb_true_iff, N.eqb_eq, existsb_exists. split.
+    - intros [H1 (x & Hx & E)]. apply N.eqb_eq in E. subst x. split; assumption.
+    - intros [H1 H2]. split; [exact H1|]. exists c. split; [exact H2|apply N.eqb_refl].
+  Qed.
+
+  Lemma case_variant_refl a : case_variant a a.
+  Proof. split; reflexivity. Qed.
+  Lemma case_variant_sym a c : case_variant a c -> case_variant c a.
+  Proof. intros [H1 H2]. split; congruence. Qed.
+  Lemma case_variant_trans a b c : case_variant a b -> case_variant b c -> case_variant a c.
+  Proof. intros [H1 H2] [H3 H4]. split; congruence. Qed.
+
+  (* laws of char::to_lowercase / to_uppercase (each monitored over ALL code points by the harness):
+     the two mappings do not depend on the ASCII case of their argument ... *)
+  Definition lower_ascii_law : Prop :=
+    forall c, lower (ascii_upper c) = lower c /\ lower (ascii_lower c) = lower c.
+  Definition upper_ascii_law : Prop :=
+    forall c, upper (ascii_upper c) = upper c /\ upper (ascii_lower c) = upper c.
+  (* ... the straight and the curly apostrophes have no case variant but themselves ... *)
+  Definition is_apo (x : char) : Prop := x = tc_canonical_apostrophe_to \/ In x tc_canonical_apostrophe_from.
+  Definition apostrophes_caseless : Prop := forall x y, is_apo x -> case_variant x y -> y = x.
+  (* ... and a case variant of an ASCII letter is an ASCII letter *)
+  Definition ascii_variant_closed : Prop :=
+    forall a b, is_ascii_alpha a = true -> case_variant a b -> is_ascii_alpha b = true.
+
+  Lemma case_variant_upper : lower_ascii_law -> upper_ascii_law -> forall c, case_variant c (ascii_upper c).
+  Proof. intros Hl Hu c. destruct (Hl c) as [L _]. destruct (Hu c) as [U _]. split; congruence. Qed.
+  Lemma case_variant_lower : lower_ascii_law -> upper_ascii_law -> forall c, case_variant c (ascii_lower c).
+  Proof. intros Hl Hu c. destruct (Hl c) as [_ L]. destruct (Hu c) as [_ U]. split; congruence. Qed.
+
+  (* ---------- every output character is a case variant of the input character at its position, or
+     the straight apostrophe over a curly one inside a word-like token whose proper-noun block found a
+     canonical spelling with the straight apostrophe at that offset ---------- *)
+  Definition apo_site (toks : list token) (src : text) (k : nat) : Prop :=
+    exists w cc, In w toks /\ tok_word_like w = true /\ canon_for' w src = Ok (Some cc) /\
+                 tstart w <= first_start toks + k < tend w /\
+                 nth_error cc (first_start toks + k - tstart w) = Some tc_canonical_apostrophe_to.
+
+  Definition char_rel (toks : list token) (src : text) (k : nat) (a c : char) : Prop :=
+    case_variant a c \/
+    (In a tc_canonical_apostrophe_from /\ c = tc_canonical_apostrophe_to /\ apo_site toks src k).
+
   Definition out_rel (toks : list token) (src : text) (k : nat) (c : char) : Prop :=
-    (exists a, nth_error src (hull_start toks + k) = Some a /\ case_img a c) \/
-    (exists w cc b,
-        In w toks /\ tok_word_like w = true /\ canon_for' w src = Ok (Some cc) /\
-        tstart w <= first_start toks + k < tend w /\
-        nth_error cc (first_start toks + k - tstart w) = Some b /\ case_img b c).
+    exists a, nth_error src (hull_start toks + k) = Some a /\ char_rel toks src k a c.
 
-  Lemma out_rel_upper toks src k c : out_rel toks src k c -> out_rel toks src k (ascii_upper c).
-  Proof.
-    intros [(a & Ha & Hi)|(w & cc & b & H1 & H2 & H3 & H4 & H5 & Hi)]; [left|right].
-    - exists a. split; [exact Ha|apply case_img_upper; exact Hi].
-    - exists w, cc, b. repeat split; try assumption; try lia. apply case_img_upper; exact Hi.
-  Qed.
-  Lemma out_rel_lower toks src k c : out_rel toks src k c -> out_rel toks src k (ascii_lower c).
-  Proof.
-    intros [(a & Ha & Hi)|(w & cc & b & H1 & H2 & H3 & H4 & H5 & Hi)]; [left|right].
-    - exists a. split; [exact Ha|apply case_img_lower; exact Hi].
-    - exists w, cc, b. repeat split; try assumption; try lia. apply case_img_lower; exact Hi.
-  Qed.
+  Section CaseOnly.
+    Hypothesis Hla : lower_ascii_law.
+    Hypothesis Hua : upper_ascii_law.
+    Hypothesis Hapo : apostrophes_caseless.
 
-  Lemma tc_loop_rel toks src : forall wl idx out out',
-    tc_loop' (first_start toks) src wl idx out = Ok out' ->
-    (forall w, In w wl -> In w toks /\ tok_word_like w = true) ->
-    (forall k c, nth_error out k = Some c -> out_rel toks src k c) ->
-    forall k c, nth_error out' k = Some c -> out_rel toks src k c.
-  Proof.
-    induction wl as [|w rest IH]; intros idx out out' H Hin Hinv; cbn [tc_loop] in H.
-    - inversion H; subst. exact Hinv.
-    - destruct (word_step' (first_start toks) src idx w match rest with [] => true | _ :: _ => false end out) as [o1|] eqn:E;
-        cbn [bind] in H; [|discriminate].
-      apply (IH _ _ _ H); [intros w' Hw'; apply Hin; now right|].
-      apply word_step_ok in E. destruct E as (oc & sc & Eoc & _ & _ & Hb & _ & _ & Hk).
-      set (si := first_start toks) in *. set (a := tstart w - si) in *. set (n := tend w - tstart w) in *.
-      assert (Hbase : forall k b, base_val oc a n out k = Some b -> out_rel toks src k b).
-      { intros k b. unfold base_val. destruct oc as [cc|]; [|apply Hinv].
-        destruct (in_reg a n k) eqn:Er; [|apply Hinv]. intros Hb'.
-        destruct (Hb cc eq_refl) as (H1 & H2 & _). unfold in_reg in Er.
-        apply Bool.andb_true_iff in Er. destruct Er as [Er1 Er2].
-        apply Nat.leb_le in Er1. apply Nat.ltb_lt in Er2.
-        right. exists w, cc, b. destruct (Hin w (or_introl eq_refl)) as [Hw1 Hw2].
-        fold si. repeat split; try assumption; try (unfold a, n in *; lia).
-        - replace (si + k - tstart w) with (k - a) by (unfold a; lia). exact Hb'.
-        - apply case_img_refl. }
-      intros k c. rewrite Hk. unfold step_val.
-      destruct (sc || (idx =? 0) || match rest with [] => true | _ :: _ => false end).
-      + destruct (k =? a); [|apply Hbase].
-        destruct (base_val oc a n out k) as [b|] eqn:Eb; cbn [option_map]; [|discriminate].
-        intros Hc. inversion Hc; subst. apply out_rel_upper. apply Hbase. exact Eb.
-      + destruct (in_reg a n k); [|apply Hbase].
-        destruct (base_val oc a n out k) as [b|] eqn:Eb; cbn [option_map]; [|discriminate].
-        intros Hc. inversion Hc; subst. apply out_rel_lower. apply Hbase. exact Eb.
-  Qed.
+    Lemma out_rel_upper toks src k c : out_rel toks src k c -> out_rel toks src k (ascii_upper c).
+    Proof.
+      intros (a & Ha & [Hv|(H1 & H2 & H3)]); exists a; (split; [exact Ha|]).
+      - left. apply (case_variant_trans _ _ _ Hv). apply case_variant_upper; assumption.
+      - right. subst c. rewrite apo_to_upper. repeat split; assumption.
+    Qed.
+    Lemma out_rel_lower toks src k c : out_rel toks src k c -> out_rel toks src k (ascii_lower c).
+    Proof.
+      intros (a & Ha & [Hv|(H1 & H2 & H3)]); exists a; (split; [exact Ha|]).
+      - left. apply (case_variant_trans _ _ _ Hv). apply case_variant_lower; assumption.
+      - right. subst c. rewrite apo_to_lower. repeat split; assumption.
+    Qed.
 
-  Theorem mtc_case_only toks src out :
-    mtc toks src = Ok out -> forall k c, nth_error out k = Some c -> out_rel toks src k c.
-  Proof.
-    destruct toks as [|t0 rest].
-    - cbn. intros H. inversion H. intros [|k] c Hc; discriminate.
-    - intros H. apply mtc_unfold in H. destruct H as (out0 & Hc & Hl).
-      change (tstart t0) with (first_start (t0 :: rest)) in Hl.
-      apply (tc_loop_rel _ _ _ _ _ _ Hl).
-      + intros w Hw. apply filter_In in Hw. exact Hw.
-      + intros k c Hk. left. exists c. split; [|apply case_img_refl].
-        apply (get_content_nth _ _ _ _ _ Hc) in Hk. exact Hk.
-  Qed.
+    (* the guarded copy keeps the relation *)
+    Lemma out_rel_pick toks src k c w cc b :
+      In w toks -> tok_word_like w = true -> canon_for' w src = Ok (Some cc) ->
+      tstart w <= first_start toks + k < tend w ->
+      nth_error cc (first_start toks + k - tstart w) = Some b ->
+      out_rel toks src k c -> out_rel toks src k (canon_pick lower upper c b).
+    Proof.
+      intros W1 W2 W3 W4 W5 (a & Ha & Hr). unfold canon_pick.
+      destruct (is_case_variant lower upper c b) eqn:Ev; cbn [orb].
+      - apply is_case_variant_spec in Ev. exists a. split; [exact Ha|].
+        destruct Hr as [Hv|(H1 & H2 & H3)].
+        + left. apply (case_variant_trans _ _ _ Hv Ev).
+        + right. subst c. assert (b = tc_canonical_apostrophe_to) by (apply Hapo; [now left|exact Ev]).
+          subst b. repeat split; assumption.
+      - destruct (is_apostrophe_pair c b) eqn:Ep; [|exists a; split; assumption].
+        apply is_apostrophe_pair_spec in Ep. destruct Ep as [-> Hc]. exists a. split; [exact Ha|].
+        right. assert (Hsite : apo_site toks src k) by (exists w, cc; repeat split; try assumption; lia).
+        destruct Hr as [Hv|(H1 & H2 & H3)].
+        + assert (a = c) by (apply Hapo; [now right|apply case_variant_sym; exact Hv]). subst a.
+          repeat split; assumption.
+        + repeat split; assumption.
+    Qed.
+
+    Lemma tc_loop_rel toks src : forall wl idx out out',
+      tc_loop' (first_start toks) src wl idx out = Ok out' ->
+      (forall w, In w wl -> In w toks /\ tok_word_like w = true) ->
+      (forall k c, nth_error out k = Some c -> out_rel toks src k c) ->
+      forall k c, nth_error out' k = Some c -> out_rel toks src k c.
+    Proof.
+      induction wl as [|w rest IH]; intros idx out out' H Hin Hinv; cbn [tc_loop] in H.
+      - inversion H; subst. exact Hinv.
+      - destruct (word_step' (first_start toks) src idx w match rest with [] => true | _ :: _ => false end out) as [o1|] eqn:E;
+          cbn [bind] in H; [|discriminate].
+        apply (IH _ _ _ H); [intros w' Hw'; apply Hin; now right|].
+        apply word_step_ok in E. destruct E as (oc & sc & Eoc & _ & _ & Hb & _ & _ & Hk).
+        set (si := first_start toks) in *. set (a := tstart w - si) in *. set (n := tend w - tstart w) in *.
+        assert (Hbase : forall k b, base_val oc a n out k = Some b -> out_rel toks src k b).
+        { intros k b. unfold base_val. destruct oc as [cc|]; [|apply Hinv].
+          destruct (in_reg a n k) eqn:Er; [|apply Hinv]. intros Hb'.
+          destruct (nth_error out k) as [c0|] eqn:Ec0; [|discriminate].
+          destruct (nth_error cc (k - a)) as [b0|] eqn:Eb0; [|discriminate].
+          cbn [pick_opt] in Hb'. inversion Hb'; subst b.
+          destruct (Hb cc eq_refl) as (H1 & H2 & _). unfold in_reg in Er.
+          apply Bool.andb_true_iff in Er. destruct Er as [Er1 Er2].
+          apply Nat.leb_le in Er1. apply Nat.ltb_lt in Er2.
+          destruct (Hin w (or_introl eq_refl)) as [Hw1 Hw2].
+          apply (out_rel_pick toks src k c0 w cc b0); try assumption.
+          - fold si. unfold a, n in *. lia.
+          - fold si. replace (si + k - tstart w) with (k - a) by (unfold a; lia). exact Eb0.
+          - apply Hinv. exact Ec0. }
+        intros k c. rewrite Hk. unfold step_val.
+        destruct (sc || (idx =? 0) || match rest with [] => true | _ :: _ => false end).
+        + destruct (k =? a); [|apply Hbase].
+          destruct (base_val oc a n out k) as [b|] eqn:Eb; cbn [option_map]; [|discriminate].
+          intros Hc. inversion Hc; subst. apply out_rel_upper. apply Hbase. exact Eb.
+        + destruct (in_reg a n k); [|apply Hbase].
+          destruct (base_val oc a n out k) as [b|] eqn:Eb; cbn [option_map]; [|discriminate].
+          intros Hc. inversion Hc; subst. apply out_rel_lower. apply Hbase. exact Eb.
+    Qed.
+
+    (* for ANY token list *)
+    Theorem mtc_case_only toks src out :
+      mtc toks src = Ok out -> forall k c, nth_error out k = Some c -> out_rel toks src k c.
+    Proof.
+      destruct toks as [|t0 rest].
+      - cbn. intros H. inversion H. intros [|k] c Hc; discriminate.
+      - intros H. apply mtc_unfold in H. destruct H as (out0 & Hc & Hl).
+        change (tstart t0) with (first_start (t0 :: rest)) in Hl.
+        apply (tc_loop_rel _ _ _ _ _ _ Hl).
+        + intros w Hw. apply filter_In in Hw. exact Hw.
+        + intros k c Hk. exists c. split; [|left; apply case_variant_refl].
+          apply (get_content_nth _ _ _ _ _ Hc) in Hk. exact Hk.
+    Qed.
+  End CaseOnly.
 
   (* ---------- what a step leaves alone ---------- *)
   Lemma step_val_outside oc cap a n out k :
@@ -669,14 +795,20 @@ Section Thms.
     rewrite Hs. repeat split; lia.
   Qed.
 
+
   (* ---------- the first word-like token starts with an upper-cased character ---------- *)
-  Theorem mtc_first_upper toks src out w0 rest :
+  (* exact form: to_ascii_uppercase of the token's first character, or of the first character of its
+     canonical spelling when the guarded copy took it *)
+  Theorem mtc_first_upper_exact toks src out w0 rest :
     toks_ok (length src) toks ->
     mtc toks src = Ok out ->
     filter tok_word_like toks = w0 :: rest ->
-    exists oc b,
-      canon_for' w0 src = Ok oc /\
-      match oc with Some cc => nth_error cc 0 | None => nth_error src (tstart w0) end = Some b /\
+    exists oc a b,
+      canon_for' w0 src = Ok oc /\ nth_error src (tstart w0) = Some a /\
+      match oc with
+      | Some cc => exists b0, nth_error cc 0 = Some b0 /\ b = canon_pick lower upper a b0
+      | None => b = a
+      end /\
       nth_error out (tstart w0 - first_start toks) = Some (ascii_upper b).
   Proof.
     intros Hok H Hf. destruct toks as [|t0 rest0]; [discriminate|].
@@ -694,23 +826,49 @@ Section Thms.
     exists oc. rewrite Hk. unfold step_val. rewrite Nat.eqb_refl. unfold base_val.
     assert (Hreg : in_reg (tstart w0 - tstart t0) (tend w0 - tstart w0) (tstart w0 - tstart t0) = true).
     { unfold in_reg. apply Bool.andb_true_iff. split; [apply Nat.leb_le|apply Nat.ltb_lt]; lia. }
+    destruct (nth_error out0 (tstart w0 - tstart t0)) as [a|] eqn:Ea.
+    2:{ apply nth_error_None in Ea. lia. }
+    assert (Hsrc : nth_error src (tstart w0) = Some a).
+    { apply (get_content_nth _ _ _ _ _ Hc) in Ea. cbn [sstart] in Ea. rewrite Hs in Ea.
+      replace (tstart t0 + (tstart w0 - tstart t0)) with (tstart w0) in Ea by lia. exact Ea. }
     destruct oc as [cc|].
     - rewrite Hreg, Nat.sub_diag. destruct (Hb cc eq_refl) as (_ & _ & _ & Hcc).
-      destruct (nth_error cc 0) as [b|] eqn:Eb.
-      + exists b. split; [exact Eoc|]. split; reflexivity.
+      destruct (nth_error cc 0) as [b0|] eqn:Eb.
+      + exists a, (canon_pick lower upper a b0). split; [exact Eoc|]. split; [exact Hsrc|].
+        split; [exists b0; split; reflexivity|reflexivity].
       + apply nth_error_None in Eb. lia.
-    - destruct (nth_error out0 (tstart w0 - tstart t0)) as [b|] eqn:Eb.
-      + exists b. split; [exact Eoc|]. split; [|reflexivity].
-        apply (get_content_nth _ _ _ _ _ Hc) in Eb. cbn [sstart] in Eb. rewrite Hs in Eb.
-        replace (tstart t0 + (tstart w0 - tstart t0)) with (tstart w0) in Eb by lia. exact Eb.
-      + apply nth_error_None in Eb. lia.
+    - exists a, a. split; [exact Eoc|]. split; [exact Hsrc|]. split; reflexivity.
+  Qed.
+
+  (* the clause of the property text: it is never an ASCII lower-case letter, and when the token
+     starts with an ASCII letter the output has an ASCII upper-case letter there *)
+  Theorem mtc_first_upper toks src out w0 rest :
+    ascii_variant_closed ->
+    toks_ok (length src) toks ->
+    mtc toks src = Ok out ->
+    filter tok_word_like toks = w0 :: rest ->
+    exists a c,
+      nth_error src (tstart w0) = Some a /\ nth_error out (tstart w0 - first_start toks) = Some c /\
+      is_ascii_lower c = false /\ (is_ascii_alpha a = true -> is_ascii_upper c = true).
+  Proof.
+    intros Hcl Hok H Hf.
+    destruct (mtc_first_upper_exact _ _ _ _ _ Hok H Hf) as (oc & a & b & _ & Ha & Hb & Hout).
+    exists a, (ascii_upper b). split; [exact Ha|]. split; [exact Hout|].
+    split; [apply ascii_upper_not_lower|]. intros Halpha. apply ascii_upper_of_alpha.
+    destruct oc as [cc|]; [|subst b; exact Halpha].
+    destruct Hb as (b0 & _ & ->). unfold canon_pick.
+    destruct (is_case_variant lower upper a b0) eqn:Ev; cbn [orb].
+    - apply is_case_variant_spec in Ev. apply (Hcl a b0 Halpha Ev).
+    - destruct (is_apostrophe_pair a b0) eqn:Ep; [|exact Halpha].
+      apply is_apostrophe_pair_spec in Ep. destruct Ep as [_ Hin].
+      apply apo_from_not_alpha in Hin. congruence.
   Qed.
 
   (* ---------- totality ---------- *)
   Lemma apply_canon_total si w oc out :
     si <= tstart w -> tstart w <= tend w -> tend w - si <= length out ->
     (forall cc, oc = Some cc -> tend w - tstart w <= length cc) ->
-    exists out1, apply_canon si w oc out = Ok out1.
+    exists out1, apply_canon lower upper si w oc out = Ok out1.
   Proof.
     intros H1 H2 H3 H4. unfold apply_canon. destruct oc as [cc|]; [|eauto]. fold (tstart w) (tend w).
     assert (Ea : sub_chk (tstart w) si = Ok (tstart w - si)) by (apply sub_chk_ok; lia).
@@ -821,25 +979,70 @@ Section Thms.
     option_map ascii_lower (option_map ascii_lower x) = option_map ascii_lower x.
   Proof. destruct x; cbn; [rewrite ascii_lower_idem|]; reflexivity. Qed.
 
-  (* the loop body, applied to its own result, changes nothing *)
-  Lemma step_settles oc cap a n ob o1 :
-    (forall k, nth_error o1 k = step_val oc cap a n ob k) -> settled oc cap a n o1.
-  Proof.
-    intros Hk k Hr. rewrite Hk. unfold step_val. rewrite Hr.
-    unfold base_val. rewrite Hr. destruct oc as [cc|].
-    - reflexivity.
-    - rewrite Hk. unfold step_val, base_val. rewrite Hr. destruct cap.
-      + destruct (k =? a); [apply option_map_upper_idem|reflexivity].
-      + apply option_map_lower_idem.
-  Qed.
+  (* the guard of the copy does not see the ASCII case of the character it is asked about *)
+  Definition guard (x b : char) : bool := is_case_variant lower upper x b || is_apostrophe_pair x b.
 
-  Lemma settled_agree oc cap a n o1 o2 :
-    (forall k, in_reg a n k = true -> nth_error o2 k = nth_error o1 k) ->
-    settled oc cap a n o1 -> settled oc cap a n o2.
-  Proof.
-    intros Hag Hs k Hr. specialize (Hs k Hr). rewrite (Hag k Hr). rewrite <- Hs.
-    unfold step_val, base_val. rewrite Hr. destruct oc; rewrite ?(Hag k Hr); reflexivity.
-  Qed.
+  Section Idem.
+    Hypothesis Hla : lower_ascii_law.
+    Hypothesis Hua : upper_ascii_law.
+
+    Lemma guard_upper x b : guard (ascii_upper x) b = guard x b.
+    Proof.
+      unfold guard, is_case_variant, is_apostrophe_pair. destruct (Hla x) as [L _]. destruct (Hua x) as [U _].
+      rewrite L, U, apo_from_upper. reflexivity.
+    Qed.
+    Lemma guard_lower x b : guard (ascii_lower x) b = guard x b.
+    Proof.
+      unfold guard, is_case_variant, is_apostrophe_pair. destruct (Hla x) as [_ L]. destruct (Hua x) as [_ U].
+      rewrite L, U, apo_from_lower. reflexivity.
+    Qed.
+    Lemma guard_refl b : guard b b = true.
+    Proof. unfold guard, is_case_variant. rewrite !text_eqb_refl. reflexivity. Qed.
+
+    (* copy, case write, copy again, case write again = copy, case write *)
+    Lemma pick_settle (f : char -> char) x b :
+      (forall y, guard (f y) b = guard y b) -> (forall y, f (f y) = f y) ->
+      f (canon_pick lower upper (f (canon_pick lower upper x b)) b) = f (canon_pick lower upper x b).
+    Proof.
+      intros Hg Hf. unfold canon_pick. fold (guard x b). destruct (guard x b) eqn:E.
+      - fold (guard (f b) b). rewrite Hg, guard_refl. reflexivity.
+      - fold (guard (f x) b). rewrite Hg, E. apply Hf.
+    Qed.
+
+    Lemma pick_opt_settle (f : char -> char) X Y :
+      (forall b y, guard (f y) b = guard y b) -> (forall y, f (f y) = f y) ->
+      option_map f (pick_opt lower upper (option_map f (pick_opt lower upper X Y)) Y)
+      = option_map f (pick_opt lower upper X Y).
+    Proof.
+      intros Hg Hf. destruct X as [x|], Y as [b|]; cbn [pick_opt option_map]; try reflexivity.
+      f_equal. apply pick_settle; [apply Hg|exact Hf].
+    Qed.
+
+    (* the loop body, applied to its own result, changes nothing *)
+    Lemma step_settles oc cap a n ob o1 :
+      (forall k, nth_error o1 k = step_val oc cap a n ob k) -> settled oc cap a n o1.
+    Proof.
+      intros Hk k Hr. rewrite Hk. unfold step_val. rewrite Hr.
+      unfold base_val. rewrite Hr. destruct oc as [cc|].
+      - rewrite Hk. unfold step_val, base_val. rewrite Hr. destruct cap.
+        + destruct (k =? a).
+          * apply (pick_opt_settle ascii_upper); [intros; apply guard_upper|apply ascii_upper_idem].
+          * pose proof (pick_opt_settle (fun y => y) (nth_error ob k) (nth_error cc (k - a))) as P.
+            assert (Hid : forall (o : option char), option_map (fun y => y) o = o) by (intros [|]; reflexivity).
+            rewrite !Hid in P. apply P; reflexivity.
+        + apply (pick_opt_settle ascii_lower); [intros; apply guard_lower|apply ascii_lower_idem].
+      - rewrite Hk. unfold step_val, base_val. rewrite Hr. destruct cap.
+        + destruct (k =? a); [apply option_map_upper_idem|reflexivity].
+        + apply option_map_lower_idem.
+    Qed.
+
+    Lemma settled_agree oc cap a n o1 o2 :
+      (forall k, in_reg a n k = true -> nth_error o2 k = nth_error o1 k) ->
+      settled oc cap a n o1 -> settled oc cap a n o2.
+    Proof.
+      intros Hag Hs k Hr. specialize (Hs k Hr). rewrite (Hag k Hr). rewrite <- Hs.
+      unfold step_val, base_val. rewrite Hr. destruct oc; rewrite ?(Hag k Hr); reflexivity.
+    Qed.
 
   (* what the first pass establishes for the token at each position of the word-like list *)
   Definition pass1_fact (si : nat) (src out : text) (idx : nat) (w : token) (last : bool) : Prop :=
@@ -946,149 +1149,140 @@ Section Thms.
       + rewrite S2. exact Esc.
   Qed.
 
-  (* ---------- the decision depends on the word only through case-insensitive data ---------- *)
-  (* laws of char::to_lowercase / is_lowercase used here (monitored over all ASCII characters /
-     all code points by the harness) and case-insensitivity of the dictionary look-up *)
-  Definition lower_ascii_law : Prop :=
-    forall c, lower (ascii_upper c) = lower c /\ lower (ascii_lower c) = lower c.
-  Definition lowercase_fixed : Prop := forall c, is_lowercase c = true -> lower c = [c].
-  Definition dict_ascii_ci : Prop := forall u v, Forall2 case_img u v -> dict_canon v = dict_canon u.
+    (* ---------- the second pass's decisions follow from case-insensitivity ---------- *)
+    (* further laws (monitored): to_lowercase is the identity on is_lowercase characters and on the
+       apostrophes; the dictionary's two look-ups do not see a difference that is only case or
+       apostrophe style (WordId hashes the normalised, lower-cased word) *)
+    Definition lowercase_fixed : Prop := forall c, is_lowercase c = true -> lower c = [c].
+    Definition apostrophes_lower_fixed : Prop := forall x, is_apo x -> lower x = [x].
+    (* a c related as the property allows, without the position information *)
+    Definition tc_rel (a c : char) : Prop :=
+      case_variant a c \/ (In a tc_canonical_apostrophe_from /\ c = tc_canonical_apostrophe_to).
+    Definition dict_case_insensitive : Prop :=
+      forall u v, Forall2 tc_rel u v ->
+        dict_canon v = dict_canon u /\
+        dict_meta (to_lower lower is_lowercase v) = dict_meta (to_lower lower is_lowercase u).
 
-  Lemma to_lower_flat : lowercase_fixed -> forall w, to_lower lower is_lowercase w = flat_map lower w.
-  Proof.
-    intros Hf w. unfold to_lower. destruct (forallb is_lowercase w) eqn:E; [|reflexivity].
-    induction w as [|c w IH]; [reflexivity|]. cbn [forallb] in E. apply Bool.andb_true_iff in E.
-    destruct E as [E1 E2]. cbn [flat_map]. rewrite (Hf c E1). cbn [app]. f_equal. apply IH. exact E2.
-  Qed.
+    Lemma to_lower_flat : lowercase_fixed -> forall w, to_lower lower is_lowercase w = flat_map lower w.
+    Proof.
+      intros Hf w. unfold to_lower. destruct (forallb is_lowercase w) eqn:E; [|reflexivity].
+      induction w as [|c w IH]; [reflexivity|]. cbn [forallb] in E. apply Bool.andb_true_iff in E.
+      destruct E as [E1 E2]. cbn [flat_map]. rewrite (Hf c E1). cbn [app]. f_equal. apply IH. exact E2.
+    Qed.
 
-  Lemma to_lower_case_img : lower_ascii_law -> lowercase_fixed ->
-    forall u v, Forall2 case_img u v -> to_lower lower is_lowercase v = to_lower lower is_lowercase u.
-  Proof.
-    intros Hl Hf u v H. rewrite !(to_lower_flat Hf). induction H as [|a c u v Hac _ IH]; [reflexivity|].
-    cbn [flat_map]. rewrite IH. f_equal. destruct (Hl a) as [L1 L2].
-    destruct Hac as [ -> | [ -> | -> ] ]; [reflexivity|exact L1|exact L2].
-  Qed.
+    (* the special conjunctions contain no apostrophe of either kind (computed from the table) *)
+    Definition apo_b (x : char) : bool :=
+      (x =? tc_canonical_apostrophe_to)%N || existsb (N.eqb x) tc_canonical_apostrophe_from.
+    Lemma apo_b_spec x : apo_b x = true <-> is_apo x.
+    Proof.
+      unfold apo_b, is_apo. rewrite Bool.orb_true_iff, N.eqb_eq, existsb_exists. split.
+      - intros [H|(y & Hy & E)]; [now left|]. apply N.eqb_eq in E. subst y. now right.
+      - intros [H|H]; [now left|]. right. exists x. split; [exact H|apply N.eqb_refl].
+    Qed.
+    Lemma conj_clean : forallb (fun w => forallb (fun x => negb (apo_b x)) w) tc_special_conjunctions = true.
+    Proof. reflexivity. Qed.
+    Lemma text_mem_no_apo w x :
+      text_mem w tc_special_conjunctions = true -> In x w -> is_apo x -> False.
+    Proof.
+      unfold text_mem. rewrite existsb_exists. intros (w' & Hw' & E) Hx Ha.
+      apply text_eqb_eq in E. subst w'. pose proof conj_clean as Hc. rewrite forallb_forall in Hc.
+      specialize (Hc w Hw'). rewrite forallb_forall in Hc. specialize (Hc x Hx).
+      apply apo_b_spec in Ha. rewrite Ha in Hc. discriminate.
+    Qed.
 
-  (* should_capitalize_token reads the source only through to_lower of the token's text, the
-     proper-noun block only through the dictionary's answer for the token's text *)
-  Lemma sct_depends w (src src' u v : text) :
-    get_content (tspan w) src = Ok u -> get_content (tspan w) src' = Ok v ->
-    to_lower lower is_lowercase v = to_lower lower is_lowercase u ->
-    sct w src' = sct w src.
-  Proof.
-    intros Eu Ev El. unfold should_capitalize_token.
-    destruct (tkind_ w) as [[md|]| | | | | | | | | | |]; try reflexivity.
-    rewrite Eu, Ev. cbn [bind]. rewrite El. reflexivity.
-  Qed.
+    Lemma flat_lower_rel : apostrophes_lower_fixed -> forall u v, Forall2 tc_rel u v ->
+      flat_map lower v = flat_map lower u \/
+      ((exists x, is_apo x /\ In x (flat_map lower u)) /\ (exists y, is_apo y /\ In y (flat_map lower v))).
+    Proof.
+      intros Hfix u v H. induction H as [|a c u v Hac _ IH]; [now left|]. cbn [flat_map].
+      destruct Hac as [[Hl _]|[Ha ->]].
+      - destruct IH as [IH|[(x & Hx & Ix) (y & Hy & Iy)]].
+        + left. rewrite Hl, IH. reflexivity.
+        + right. split; [exists x|exists y]; (split; [assumption|apply in_or_app; now right]).
+      - right. split.
+        + exists a. split; [now right|]. rewrite (Hfix a) by (now right). now left.
+        + exists tc_canonical_apostrophe_to. split; [now left|]. rewrite (Hfix _) by (now left). now left.
+    Qed.
 
-  Lemma canon_for_depends w (src src' u v : text) :
-    get_content (tspan w) src = Ok u -> get_content (tspan w) src' = Ok v ->
-    dict_canon v = dict_canon u ->
-    canon_for' w src' = canon_for' w src.
-  Proof.
-    intros Eu Ev Ed. unfold canon_for.
-    destruct (tkind_ w) as [[md|]| | | | | | | | | | |]; try reflexivity.
-    destruct (m_proper md); [|reflexivity]. rewrite Eu, Ev. cbn [bind]. rewrite Ed. reflexivity.
-  Qed.
+    Lemma conj_mem_rel : lowercase_fixed -> apostrophes_lower_fixed -> forall u v, Forall2 tc_rel u v ->
+      text_mem (to_lower lower is_lowercase v) tc_special_conjunctions
+      = text_mem (to_lower lower is_lowercase u) tc_special_conjunctions.
+    Proof.
+      intros Hf Hfix u v H. rewrite !(to_lower_flat Hf).
+      destruct (flat_lower_rel Hfix u v H) as [E|[(x & Hx & Ix) (y & Hy & Iy)]]; [rewrite E; reflexivity|].
+      destruct (text_mem (flat_map lower v) tc_special_conjunctions) eqn:Ev.
+      { exfalso. apply (text_mem_no_apo _ y Ev Iy Hy). }
+      destruct (text_mem (flat_map lower u) tc_special_conjunctions) eqn:Eu; [|reflexivity].
+      exfalso. apply (text_mem_no_apo _ x Eu Ix Hx).
+    Qed.
 
-  Lemma sorted_trichotomy {A} (R : A -> A -> Prop) : forall l, StronglySorted R l ->
-    forall a b, In a l -> In b l -> a = b \/ R a b \/ R b a.
-  Proof.
-    induction l as [|x l IH]; intros Hs a b Ha Hb; [destruct Ha|].
-    apply StronglySorted_inv in Hs. destruct Hs as [Hs Hf]. rewrite Forall_forall in Hf.
-    destruct Ha as [ -> |Ha]; destruct Hb as [ -> |Hb].
-    - now left.
-    - right; left. apply Hf. exact Hb.
-    - right; right. apply Hf. exact Ha.
-    - apply IH; assumption.
-  Qed.
+    (* should_capitalize_token reads the source only through to_lower of the token's text (dictionary
+       metadata and the special conjunctions), the proper-noun block only through the dictionary's
+       answer for the token's text *)
+    Lemma sct_depends w (src src' u v : text) :
+      get_content (tspan w) src = Ok u -> get_content (tspan w) src' = Ok v ->
+      dict_meta (to_lower lower is_lowercase v) = dict_meta (to_lower lower is_lowercase u) ->
+      text_mem (to_lower lower is_lowercase v) tc_special_conjunctions
+      = text_mem (to_lower lower is_lowercase u) tc_special_conjunctions ->
+      sct w src' = sct w src.
+    Proof.
+      intros Eu Ev Em Ec. unfold should_capitalize_token.
+      destruct (tkind_ w) as [[md|]| | | | | | | | | | |]; try reflexivity.
+      rewrite Eu, Ev. cbn [bind]. rewrite Em, Ec. reflexivity.
+    Qed.
 
-  Lemma Forall2_of_nth {A B} (P : A -> B -> Prop) : forall (u : list A) (v : list B),
-    length u = length v ->
-    (forall k a c, nth_error u k = Some a -> nth_error v k = Some c -> P a c) ->
-    Forall2 P u v.
-  Proof.
-    induction u as [|a u IH]; intros [|c v] Hl H; try discriminate; constructor.
-    - apply (H 0); reflexivity.
-    - apply IH; [cbn in Hl; lia|]. intros k a' c' Ha Hc. apply (H (S k)); assumption.
-  Qed.
+    Lemma canon_for_depends w (src src' u v : text) :
+      get_content (tspan w) src = Ok u -> get_content (tspan w) src' = Ok v ->
+      dict_canon v = dict_canon u ->
+      canon_for' w src' = canon_for' w src.
+    Proof.
+      intros Eu Ev Ed. unfold canon_for.
+      destruct (tkind_ w) as [[md|]| | | | | | | | | | |]; try reflexivity.
+      destruct (m_proper md); [|reflexivity]. rewrite Eu, Ev. cbn [bind]. rewrite Ed. reflexivity.
+    Qed.
 
-  (* Idempotence with the stability premise reduced to what case-insensitivity cannot give:
-     for tokens whose text was NOT replaced by a canonical spelling, the second pass's decision is
-     derived from (i) to_lowercase ignoring ASCII case, (ii) the dictionary look-up ignoring ASCII
-     case; only for tokens whose text WAS replaced (the canonical spelling may differ from the input
-     by more than ASCII case: apostrophes, non-ASCII case pairs) the premise stays. *)
-  Theorem mtc_idempotent_ci toks src out :
-    toks_ok (length src) toks ->
-    hull_start toks = 0 -> hull_end toks = length src ->
-    lower_ascii_law -> lowercase_fixed -> dict_ascii_ci ->
-    mtc toks src = Ok out ->
-    (forall w cc, In w toks -> tok_word_like w = true -> canon_for' w src = Ok (Some cc) ->
-                  canon_for' w out = Ok (Some cc) /\ sct w out = sct w src) ->
-    mtc toks out = Ok out.
-  Proof.
-    intros Hok Hs0 He0 Hl Hf Hd H Hcanon. apply (mtc_idempotent toks src out Hok Hs0 He0 H).
-    intros w Hin Hwl.
-    destruct toks as [|t0 rest]; [destruct Hin|].
-    pose proof (mtc_length _ _ _ H) as Hlen. rewrite Hs0, He0, Nat.sub_0_r in Hlen.
-    destruct (toks_ok_hull _ _ _ Hok) as (Hs & _ & _). rewrite Hs0 in Hs.
-    destruct Hok as [Hso Hfa]. rewrite Forall_forall in Hfa. destruct (Hfa w Hin) as (B1 & B2 & B3).
-    destruct (canon_for_total w src) as (oc & Eoc & _); [lia|].
-    destruct oc as [cc|].
-    { destruct (Hcanon w cc Hin Hwl Eoc) as [C1 C2]. rewrite C1, Eoc, C2. split; reflexivity. }
-    (* not replaced: the token's text in `out` is its text in `src` up to ASCII case *)
-    assert (Eu : get_content (tspan w) src = Ok (slice src (tstart w) (tend w))).
-    { destruct w as [[s e] kd]. cbn [tspan tstart tend sstart send] in *. apply get_content_in. lia. }
-    assert (Ev : get_content (tspan w) out = Ok (slice out (tstart w) (tend w))).
-    { destruct w as [[s e] kd]. cbn [tspan tstart tend sstart send] in *. apply get_content_in. lia. }
-    assert (Hci : Forall2 case_img (slice src (tstart w) (tend w)) (slice out (tstart w) (tend w))).
-    { apply Forall2_of_nth.
-      - unfold slice. rewrite !firstn_length, !skipn_length. lia.
-      - intros k a c. rewrite !slice_nth. destruct (Nat.ltb_spec k (tend w - tstart w)); [|discriminate].
-        intros Ha Hc. destruct (mtc_case_only _ _ _ H _ _ Hc) as [(a' & Ha' & Hi)|(w' & cc' & b & W1 & W2 & W3 & W4 & _)].
-        + rewrite Hs0 in Ha'. cbn [Nat.add] in Ha'. rewrite Ha in Ha'. inversion Ha'; subst a'. exact Hi.
-        + exfalso. cbn [first_start] in W4. rewrite <- Hs in W4. cbn [Nat.add] in W4.
-          destruct (sorted_trichotomy _ _ Hso w w' Hin W1) as [ <- |[Hr|Hr]].
-          * rewrite Eoc in W3. discriminate.
-          * lia.
-          * lia. }
-    split.
-    - apply (canon_for_depends w src out _ _ Eu Ev). apply Hd. exact Hci.
-    - apply (sct_depends w src out _ _ Eu Ev). apply to_lower_case_img; assumption.
-  Qed.
+    Lemma Forall2_of_nth {A B} (P : A -> B -> Prop) : forall (u : list A) (v : list B),
+      length u = length v ->
+      (forall k a c, nth_error u k = Some a -> nth_error v k = Some c -> P a c) ->
+      Forall2 P u v.
+    Proof.
+      induction u as [|a u IH]; intros [|c v] Hl H; try discriminate; constructor.
+      - apply (H 0); reflexivity.
+      - apply IH; [cbn in Hl; lia|]. intros k a' c' Ha Hc. apply (H (S k)); assumption.
+    Qed.
 
-  (* ---------- case only, for any per-character relation S that the canonical spellings respect ----------
-     Shape `forall x, ~ KnownClass x -> P x`: S is the relation the property allows between an input and
-     an output character; the premise says that no canonical spelling copied by the proper-noun block
-     relates a source character to something outside S (after the ASCII case write that may follow).
-     The known class FC18a is exactly a canonical spelling violating it (U+212A vs 'k' then 'K'). *)
-  Theorem mtc_case_only_rel (S : char -> char -> Prop) toks src out :
-    (forall a c, case_img a c -> S a c) ->
-    toks_ok (length src) toks ->
-    mtc toks src = Ok out ->
-    (forall w cc i a b c,
-        In w toks -> tok_word_like w = true -> canon_for' w src = Ok (Some cc) ->
-        tstart w + i < tend w ->
-        nth_error src (tstart w + i) = Some a -> nth_error cc i = Some b -> case_img b c -> S a c) ->
-    forall k c, nth_error out k = Some c ->
-      exists a, nth_error src (hull_start toks + k) = Some a /\ S a c.
-  Proof.
-    intros HS Hok H Hcanon k c Hc.
-    destruct toks as [|t0 rest]; [cbn in H; inversion H; subst; destruct k; discriminate|].
-    destruct (toks_ok_hull _ _ _ Hok) as (Hs & He & _).
-    pose proof (mtc_length _ _ _ H) as Hlen.
-    assert (Hk : k < length out) by (apply nth_error_Some; congruence).
-    destruct (hull_eq (t0 :: rest)) as (_ & Hle & _); [congruence|].
-    destruct (nth_error src (hull_start (t0 :: rest) + k)) as [a|] eqn:Ea.
-    2:{ apply nth_error_None in Ea. lia. }
-    exists a. split; [reflexivity|].
-    destruct (mtc_case_only _ _ _ H _ _ Hc) as [(a' & Ha' & Hi)|(w & cc & b & W1 & W2 & W3 & W4 & W5 & Hi)].
-    - rewrite Ea in Ha'. inversion Ha'; subst a'. apply HS. exact Hi.
-    - cbn [first_start] in W4, W5. rewrite Hs in Ea.
-      apply (Hcanon w cc (tstart t0 + k - tstart w) a b c W1 W2 W3); try assumption; try lia.
-      replace (tstart w + (tstart t0 + k - tstart w)) with (tstart t0 + k) by lia. exact Ea.
-  Qed.
-End Thms.
+    (* IDEMPOTENCE of make_title_case on a token list: a second pass over the same tokens changes
+       nothing.  No premise about the dictionary's answers on the output is left: they follow from the
+       case-only theorem and the case-insensitivity of the look-ups. *)
+    Theorem mtc_idempotent_tokens toks src out :
+      apostrophes_caseless -> lowercase_fixed -> apostrophes_lower_fixed -> dict_case_insensitive ->
+      toks_ok (length src) toks ->
+      hull_start toks = 0 -> hull_end toks = length src ->
+      mtc toks src = Ok out ->
+      mtc toks out = Ok out.
+    Proof.
+      intros Hapo Hf Hfix Hd Hok Hs0 He0 H. apply (mtc_idempotent toks src out Hok Hs0 He0 H).
+      intros w Hin Hwl.
+      destruct toks as [|t0 rest]; [destruct Hin|].
+      pose proof (mtc_length _ _ _ H) as Hlen. rewrite Hs0, He0, Nat.sub_0_r in Hlen.
+      destruct Hok as [Hso Hfa]. rewrite Forall_forall in Hfa. destruct (Hfa w Hin) as (B1 & B2 & B3).
+      assert (Eu : get_content (tspan w) src = Ok (slice src (tstart w) (tend w))).
+      { destruct w as [[s e] kd]. cbn [tspan tstart tend sstart send] in *. apply get_content_in. lia. }
+      assert (Ev : get_content (tspan w) out = Ok (slice out (tstart w) (tend w))).
+      { destruct w as [[s e] kd]. cbn [tspan tstart tend sstart send] in *. apply get_content_in. lia. }
+      assert (Hci : Forall2 tc_rel (slice src (tstart w) (tend w)) (slice out (tstart w) (tend w))).
+      { apply Forall2_of_nth.
+        - unfold slice. rewrite !firstn_length, !skipn_length. lia.
+        - intros k a c. rewrite !slice_nth. destruct (Nat.ltb_spec k (tend w - tstart w)); [|discriminate].
+          intros Ha Hc. destruct (mtc_case_only Hla Hua Hapo _ _ _ H _ _ Hc) as (a' & Ha' & Hr).
+          rewrite Hs0 in Ha'. cbn [Nat.add] in Ha'. rewrite Ha in Ha'. inversion Ha'; subst a'.
+          destruct Hr as [Hv|(R1 & R2 & _)]; [now left|right; split; assumption]. }
+      destruct (Hd _ _ Hci) as [D1 D2]. split.
+      - apply (canon_for_depends w src out _ _ Eu Ev D1).
+      - apply (sct_depends w src out _ _ Eu Ev D2). apply conj_mem_rel; assumption.
+    Qed.
+  End Idem.
+End Main.
 
 (* ================= H_canon_len from the way the dictionary finds a word =================
    WordId::from_word_chars hashes `normalized` then `to_lower` of the word; the entry found for w is
@@ -1126,21 +1320,22 @@ Proof.
   rewrite Hf in H1. lia.
 Qed.
 
-Lemma mtc_total_word_id lower is_lowercase dict_canon dict_meta toks (src : text) :
+
+Lemma mtc_total_word_id lower upper is_lowercase dict_canon dict_meta toks (src : text) :
   toks_ok (length src) toks ->
   (forall c, lower c <> []) ->
   (forall w cc, dict_canon w = Some cc ->
                 fold_word lower cc = fold_word lower w /\
                 Forall (fun c => length (lower (normalize_char c)) = 1) cc) ->
-  exists out, make_title_case lower is_lowercase dict_canon dict_meta toks src = Ok out.
+  exists out, make_title_case lower upper is_lowercase dict_canon dict_meta toks src = Ok out.
 Proof.
   intros Hok Hne Hd. apply mtc_total; [exact Hok|].
   intros w cc E. destruct (Hd w cc E) as [H1 H2]. apply (canon_len_from_word_id lower); assumption.
 Qed.
 
 (* ================= corollaries and the tie to the generated table ================= *)
-Lemma mtc_length_tiling lower is_lowercase dict_canon dict_meta toks (src out : text) :
-  make_title_case lower is_lowercase dict_canon dict_meta toks src = Ok out ->
+Lemma mtc_length_tiling lower upper is_lowercase dict_canon dict_meta toks (src out : text) :
+  make_title_case lower upper is_lowercase dict_canon dict_meta toks src = Ok out ->
   hull_start toks = 0 -> hull_end toks = length src -> length out = length src.
 Proof. intros H H0 H1. apply mtc_length in H. lia. Qed.
 
@@ -1154,23 +1349,64 @@ Qed.
 
 Lemma tc_source_shape :
   tc_uses_unicode_case_on_output = false /\ tc_ascii_upper_sites = 1 /\ tc_ascii_lower_sites = 1 /\
-  tc_output_index_writes = 2 /\ tc_canonical_overwrite_present = true /\ tc_first_last_forced = true /\
+  tc_output_index_writes = 2 /\
+  tc_canonical_copy_guarded = true /\ tc_canonical_copy_unguarded_present = false /\
+  tc_case_variant_is_lower_and_upper = true /\
+  tc_canonical_apostrophe_to = 39%N /\ tc_canonical_apostrophe_from = [8217; 8216; 65287]%N /\
+  tc_first_last_forced = true /\
   tc_token_kind_count = 12 /\ tc_word_like_codes = [0; 6; 8; 2; 3] /\
   tc_special_conjunctions = [[97; 110; 100]; [98; 117; 116]; [102; 111; 114]; [111; 114]; [110; 111; 114]]%N /\
   tc_short_preposition_max = 4 /\
   tc_normalize_table = [(8217, 39); (8216, 39); (65287, 39)]%N.
 Proof. repeat split; reflexivity. Qed.
 
+(* the full property on a token list, in one statement: under the token invariant and tiling, the
+   Unicode-table laws and the dictionary contract, the conversion succeeds, keeps the length, changes
+   each character only to a case variant of itself (or a curly apostrophe to the straight one of a
+   proper noun's canonical spelling), starts the first word-like token with an upper-case letter when
+   it starts with an ASCII letter, and a second pass over the same tokens changes nothing *)
+Theorem mtc_property lower upper is_lowercase dict_canon dict_meta toks (src : text) :
+  lower_ascii_law lower -> upper_ascii_law upper -> apostrophes_caseless lower upper ->
+  ascii_variant_closed lower upper -> lowercase_fixed lower is_lowercase -> apostrophes_lower_fixed lower ->
+  dict_case_insensitive lower upper is_lowercase dict_canon dict_meta ->
+  (forall w cc, dict_canon w = Some cc -> length w <= length cc) ->
+  toks_ok (length src) toks -> hull_start toks = 0 -> hull_end toks = length src ->
+  exists out,
+    make_title_case lower upper is_lowercase dict_canon dict_meta toks src = Ok out /\
+    length out = length src /\
+    (forall k c, nth_error out k = Some c ->
+       exists a, nth_error src k = Some a /\ char_rel lower upper dict_canon toks src k a c) /\
+    (forall w0 rest, filter tok_word_like toks = w0 :: rest ->
+       exists a c, nth_error src (tstart w0) = Some a /\ nth_error out (tstart w0) = Some c /\
+                   is_ascii_lower c = false /\ (is_ascii_alpha a = true -> is_ascii_upper c = true)) /\
+    make_title_case lower upper is_lowercase dict_canon dict_meta toks out = Ok out.
+Proof.
+  intros Hla Hua Hapo Hcl Hf Hfix Hd Hlen Hok Hs0 He0.
+  destruct (mtc_total lower upper is_lowercase dict_canon dict_meta toks src Hok Hlen) as [out H].
+  exists out. split; [exact H|]. split; [apply (mtc_length_tiling _ _ _ _ _ _ _ _ H Hs0 He0)|]. split; [|split].
+  - intros k c Hc. destruct (mtc_case_only _ _ _ _ _ Hla Hua Hapo _ _ _ H _ _ Hc) as (a & Ha & Hr).
+    rewrite Hs0 in Ha. exists a. split; assumption.
+  - intros w0 rest Hfl.
+    destruct (mtc_first_upper _ _ _ _ _ _ _ _ _ _ Hcl Hok H Hfl) as (a & c & Ha & Hc & H1 & H2).
+    exists a, c. repeat split; try assumption.
+    destruct toks as [|t0 r0]; [discriminate|]. destruct (toks_ok_hull _ _ _ Hok) as (Hs & _).
+    cbn [first_start] in Hc. rewrite <- Hs, Hs0, Nat.sub_0_r in Hc. exact Hc.
+  - apply (mtc_idempotent_tokens _ _ _ _ _ Hla Hua toks src out Hapo Hf Hfix Hd Hok Hs0 He0 H).
+Qed.
+
 (* ================= a concrete instance (non-vacuity of the hypotheses) ================= *)
 Definition ex_lower (c : char) : list char := [ascii_lower c].
+Definition ex_upper (c : char) : list char := [ascii_upper c].
 Definition ex_islower (c : char) : bool := is_ascii_lower c.
-(* "wordpress" / "WordPress", "the" "a" determiners, "of" preposition *)
+(* the example dictionary finds a word by its folded form, as WordId does: char_to_normalized, then
+   lower-case.  "wordpress" / "WordPress", "the" "a" determiners, "of" preposition *)
+Definition ex_key (w : text) : text := map (fun c => ascii_lower (normalize_char c)) w.
 Definition ex_wordpress : text := [119; 111; 114; 100; 112; 114; 101; 115; 115]%N.
 Definition ex_WordPress : text := [87; 111; 114; 100; 80; 114; 101; 115; 115]%N.
 Definition ex_canon (w : text) : option text :=
-  if text_eqb (map ascii_lower w) ex_wordpress then Some ex_WordPress else None.
+  if text_eqb (ex_key w) ex_wordpress then Some ex_WordPress else None.
 Definition ex_meta (w : text) : option wmeta :=
-  let l := map ascii_lower w in
+  let l := ex_key w in
   if text_eqb l ex_wordpress then Some (mkmeta true false false)
   else if text_eqb l [116; 104; 101]%N || text_eqb l [97]%N then Some (mkmeta false false true)
   else if text_eqb l [111; 102]%N then Some (mkmeta false true false)
@@ -1187,17 +1423,11 @@ Definition ex_toks : list token :=
 Definition ex_out : text :=
   [84; 104; 101; 32; 87; 111; 114; 100; 80; 114; 101; 115; 115; 32; 111; 102; 32; 65]%N.
 
-Lemma text_eqb_eq : forall a b, text_eqb a b = true -> a = b.
-Proof.
-  induction a as [|x a IH]; intros [|y b] H; cbn [text_eqb] in H; try discriminate; [reflexivity|].
-  apply Bool.andb_true_iff in H. destruct H as [H1 H2]. apply N.eqb_eq in H1. subst y. f_equal. apply IH. exact H2.
-Qed.
-
 Lemma ex_canon_len : forall w cc, ex_canon w = Some cc -> length w <= length cc.
 Proof.
-  intros w cc. unfold ex_canon. destruct (text_eqb (map ascii_lower w) ex_wordpress) eqn:E; [|discriminate].
+  intros w cc. unfold ex_canon. destruct (text_eqb (ex_key w) ex_wordpress) eqn:E; [|discriminate].
   intros H. inversion H; subst cc. apply text_eqb_eq in E.
-  apply (f_equal (@length char)) in E. rewrite map_length in E. rewrite E. cbn. lia.
+  apply (f_equal (@length char)) in E. unfold ex_key in E. rewrite map_length in E. rewrite E. cbn. lia.
 Qed.
 
 Lemma ex_toks_ok : toks_ok (length ex_src) ex_toks.
@@ -1207,57 +1437,128 @@ Proof.
   - repeat constructor; cbn; try lia; try discriminate.
 Qed.
 
-(* ================= the known class FC18a/FC18b: KELVIN SIGN in a proper noun =================
-   Input "b the.Kelvin" with U+212A for the K.  The tables are the facts dumped from the real
-   implementation for this input (corpus/C18/kelvin.json replays it): first pass over the tokens
-   Word Space Word(the) Punct(.) Word(proper noun, canonical spelling "kelvin"), second pass over
-   the tokens the lexer produces for the first pass's output: Word Space Hostname("the.Kelvin"). *)
+(* the example's case mappings satisfy every law the theorems assume *)
+Lemma ex_lower_ascii_law : lower_ascii_law ex_lower.
+Proof. intros c. unfold ex_lower. rewrite ascii_lower_upper, ascii_lower_idem. split; reflexivity. Qed.
+Lemma ex_upper_ascii_law : upper_ascii_law ex_upper.
+Proof. intros c. unfold ex_upper. rewrite ascii_upper_idem, ascii_upper_lower. split; reflexivity. Qed.
+Lemma ex_lowercase_fixed : lowercase_fixed ex_lower ex_islower.
+Proof.
+  intros c H. unfold ex_lower, ex_islower in *. apply is_ascii_lower_spec in H.
+  destruct (ascii_lower_cases c) as [[E _]|[_ Hr]]; [rewrite E; reflexivity|lia].
+Qed.
+
+Lemma ex_variant_inv a c : case_variant ex_lower ex_upper a c ->
+  ascii_lower a = ascii_lower c /\ ascii_upper a = ascii_upper c.
+Proof. unfold case_variant, ex_lower, ex_upper. intros [H1 H2]. injection H1 as E1. injection H2 as E2. split; assumption. Qed.
+
+(* a character above 'z' has no ASCII case variant but itself *)
+Lemma ex_variant_high a c : case_variant ex_lower ex_upper a c -> (122 < a)%N \/ (122 < c)%N -> c = a.
+Proof.
+  intros H Hh. apply ex_variant_inv in H. destruct H as [H _].
+  destruct (ascii_lower_cases a) as [[Ea Ha]|[Ea Ha]]; destruct (ascii_lower_cases c) as [[Ec Hc]|[Ec Hc]];
+    rewrite Ea, Ec in H; lia.
+Qed.
+
+Lemma is_apo_cases x : is_apo x -> x = 39%N \/ (122 < x)%N.
+Proof.
+  intros [->|H]; [now left|right]. pose proof apo_from_high as Hh. rewrite Forall_forall in Hh. exact (Hh x H).
+Qed.
+
+Lemma ex_apostrophes_caseless : apostrophes_caseless ex_lower ex_upper.
+Proof.
+  intros x y Hx Hv. destruct (is_apo_cases x Hx) as [->|Hh].
+  - apply ex_variant_inv in Hv. destruct Hv as [H1 H2]. change (ascii_lower 39%N) with 39%N in H1.
+    destruct (ascii_lower_cases y) as [[E _]|[E Hr]]; rewrite E in H1; lia.
+  - apply (ex_variant_high x y Hv). now left.
+Qed.
+
+Lemma ex_apostrophes_lower_fixed : apostrophes_lower_fixed ex_lower.
+Proof.
+  intros x Hx. unfold ex_lower. destruct (is_apo_cases x Hx) as [->|Hh]; [reflexivity|].
+  destruct (ascii_lower_cases x) as [[E _]|[_ Hr]]; [rewrite E; reflexivity|lia].
+Qed.
+
+Lemma ex_ascii_variant_closed : ascii_variant_closed ex_lower ex_upper.
+Proof.
+  intros a b Ha Hv. apply ex_variant_inv in Hv. destruct Hv as [H1 H2].
+  unfold is_ascii_alpha in *. apply Bool.orb_true_iff in Ha. apply Bool.orb_true_iff.
+  rewrite is_ascii_lower_spec, is_ascii_upper_spec in *.
+  destruct (ascii_lower_cases a) as [[Ea Ra]|[Ea Ra]]; destruct (ascii_lower_cases b) as [[Eb Rb]|[Eb Rb]];
+    rewrite Ea, Eb in H1; lia.
+Qed.
+
+Lemma normalize_char_low x : (x <= 122)%N -> normalize_char x = x.
+Proof.
+  intros H. unfold normalize_char, tc_normalize_table. cbn [assoc_N].
+  repeat match goal with |- context [(?k =? x)%N] => destruct (N.eqb_spec k x); [lia|] end. reflexivity.
+Qed.
+
+Lemma ex_key_char_rel a c : tc_rel ex_lower ex_upper a c ->
+  ascii_lower (normalize_char a) = ascii_lower (normalize_char c).
+Proof.
+  intros [Hv|[Ha ->]].
+  - destruct (N.le_gt_cases a 122) as [La|La]; destruct (N.le_gt_cases c 122) as [Lc|Lc].
+    + rewrite !normalize_char_low by assumption. apply ex_variant_inv in Hv. apply Hv.
+    + rewrite (ex_variant_high a c Hv) by (now right). reflexivity.
+    + rewrite (ex_variant_high a c Hv) by (now left). reflexivity.
+    + rewrite (ex_variant_high a c Hv) by (now left). reflexivity.
+  - cbn in Ha. destruct Ha as [<-|[<-|[<-|[]]]]; reflexivity.
+Qed.
+
+Lemma ex_key_rel u v : Forall2 (tc_rel ex_lower ex_upper) u v -> ex_key v = ex_key u.
+Proof.
+  intros H. induction H as [|a c u v Hac _ IH]; [reflexivity|]. unfold ex_key in *. cbn [map].
+  rewrite IH, (ex_key_char_rel a c Hac). reflexivity.
+Qed.
+
+Lemma ex_key_to_lower w : ex_key (to_lower ex_lower ex_islower w) = ex_key w.
+Proof.
+  unfold to_lower. destruct (forallb ex_islower w); [reflexivity|].
+  induction w as [|c w IH]; [reflexivity|]. unfold ex_key in *. cbn [flat_map ex_lower app map]. rewrite IH. f_equal.
+  destruct (N.le_gt_cases c 122) as [L|L].
+  - assert (ascii_lower c <= 122)%N by (destruct (ascii_lower_cases c) as [[E _]|[E R]]; rewrite E; lia).
+    rewrite !normalize_char_low by assumption. apply ascii_lower_idem.
+  - destruct (ascii_lower_cases c) as [[E _]|[_ R]]; [rewrite E; reflexivity|lia].
+Qed.
+
+Lemma ex_dict_case_insensitive : dict_case_insensitive ex_lower ex_upper ex_islower ex_canon ex_meta.
+Proof.
+  intros u v H. apply ex_key_rel in H. unfold ex_canon, ex_meta. rewrite !ex_key_to_lower, H. split; reflexivity.
+Qed.
+
+(* ================= regression: the former known class FC18a/FC18b (fixed by 41fa706) =================
+   Input "b the.Kelvin" with U+212A KELVIN SIGN for the K.  The tables are the facts dumped from the real
+   implementation (corpus/C18/kelvin.json replays it): tokens Word Space Word(the) Punct(.) Word(proper
+   noun, canonical spelling "kelvin").  KELVIN SIGN and k share the lower-case mapping but not the
+   upper-case one (U+212A is its own upper-case), so the guarded copy leaves the KELVIN SIGN alone; the
+   output still contains a non-ASCII letter next to the dot, re-lexes to the same tokens, and a second
+   pass is the identity.  (History/C18History.v: what the code did before the fix.) *)
 Definition kw_src : text := [98; 32; 116; 104; 101; 46; 8490; 101; 108; 118; 105; 110]%N.
-Definition kw_out : text := [66; 32; 116; 104; 101; 46; 75; 101; 108; 118; 105; 110]%N.
-Definition kw_out2 : text := [66; 32; 84; 104; 101; 46; 75; 101; 108; 118; 105; 110]%N.
-Definition kw_chars : list (char * (bool * list char)) :=
-  [(32, (false, [32])); (46, (false, [46])); (98, (true, [98])); (101, (true, [101])); (104, (true, [104]));
-   (105, (true, [105])); (108, (true, [108])); (110, (true, [110])); (116, (true, [116])); (118, (true, [118]));
-   (8490, (false, [107])); (66, (false, [98])); (75, (false, [107]))]%N.
+Definition kw_out : text := [66; 32; 116; 104; 101; 46; 8490; 101; 108; 118; 105; 110]%N.
+Definition kw_chars : list (char * (bool * (list char * list char))) :=
+  [(32, (false, ([32], [32]))); (46, (false, ([46], [46]))); (98, (true, ([98], [66]))); (101, (true, ([101], [69])));
+   (104, (true, ([104], [72]))); (105, (true, ([105], [73]))); (108, (true, ([108], [76]))); (110, (true, ([110], [78])));
+   (116, (true, ([116], [84]))); (118, (true, ([118], [86]))); (8490, (false, ([107], [8490])));
+   (66, (false, ([98], [66]))); (107, (true, ([107], [75])));
+   (* the to_ascii_uppercase images of the above (the dump includes them: see run_missing_keys) *)
+   (69, (false, ([101], [69]))); (72, (false, ([104], [72]))); (73, (false, ([105], [73])));
+   (76, (false, ([108], [76]))); (78, (false, ([110], [78]))); (84, (false, ([116], [84])));
+   (86, (false, ([118], [86]))); (75, (false, ([107], [75])))]%N.
 Definition kw_canon : list (text * option text) :=
   [([98], Some [98]); ([116; 104; 101], Some [116; 104; 101]);
    ([8490; 101; 108; 118; 105; 110], Some [107; 101; 108; 118; 105; 110]); ([66], Some [98])]%N.
 Definition kw_meta : list (text * option wmeta) :=
   [([98]%N, Some (mkmeta true false false)); ([107; 101; 108; 118; 105; 110]%N, Some (mkmeta true false false));
    ([116; 104; 101]%N, Some (mkmeta false true true))].
-Definition kw_toks1 : list (nat * nat * nat * option wmeta) :=
+Definition kw_toks : list (nat * nat * nat * option wmeta) :=
   [(0, 1, 0, Some (mkmeta true false false)); (1, 2, 4, None); (2, 5, 0, Some (mkmeta false true true));
    (5, 6, 1, None); (6, 12, 0, Some (mkmeta true false false))].
-Definition kw_toks2 : list (nat * nat * nat * option wmeta) :=
-  [(0, 1, 0, Some (mkmeta true false false)); (1, 2, 4, None); (2, 12, 8, None)].
 
-Lemma kelvin_witness :
-  run_title_case kw_chars kw_canon kw_meta kw_toks1 kw_src = Ok kw_out /\
-  run_title_case kw_chars kw_canon kw_meta kw_toks2 kw_out = Ok kw_out2 /\
-  kw_out2 <> kw_out /\
-  nth_error kw_src 6 = Some 8490%N /\ nth_error kw_out 6 = Some 75%N /\ ~ case_img 8490%N 75%N.
-Proof.
-  split; [vm_compute; reflexivity|]. split; [vm_compute; reflexivity|]. split; [discriminate|].
-  split; [reflexivity|]. split; [reflexivity|].
-  intros [H|[H|H]]; vm_compute in H; discriminate.
-Qed.
-
-(* the whole conversion (first pass, re-lexing, second pass) is not idempotent on this input, and the
-   first pass changes a character by more than its case *)
-Lemma mtc_idempotent_refuted :
-  exists chars canon meta toks toks' src out out',
-    run_title_case chars canon meta toks src = Ok out /\
-    run_title_case chars canon meta toks' out = Ok out' /\ out' <> out.
-Proof.
-  exists kw_chars, kw_canon, kw_meta, kw_toks1, kw_toks2, kw_src, kw_out, kw_out2.
-  destruct kelvin_witness as (H1 & H2 & H3 & _). repeat split; assumption.
-Qed.
-
-Lemma mtc_case_only_strict_refuted :
-  exists chars canon meta toks src out k a c,
-    run_title_case chars canon meta toks src = Ok out /\
-    nth_error src k = Some a /\ nth_error out k = Some c /\ ~ case_img a c.
-Proof.
-  exists kw_chars, kw_canon, kw_meta, kw_toks1, kw_src, kw_out, 6, 8490%N, 75%N.
-  destruct kelvin_witness as (H1 & _ & _ & H4 & H5 & H6). repeat split; assumption.
-Qed.
+Lemma kelvin_regression :
+  run_title_case kw_chars kw_canon kw_meta kw_toks kw_src = Ok kw_out /\
+  run_title_case kw_chars kw_canon kw_meta kw_toks kw_out = Ok kw_out /\
+  run_missing_keys kw_chars kw_canon kw_meta kw_toks kw_src = false /\
+  run_missing_keys kw_chars kw_canon kw_meta kw_toks kw_out = false /\
+  nth_error kw_src 6 = Some 8490%N /\ nth_error kw_out 6 = Some 8490%N.
+Proof. repeat split; vm_compute; reflexivity. Qed.
